@@ -78,6 +78,9 @@ func (c *Config) overlayFiles() (map[string]string, error) {
 	if err := add(filepath.Join(c.Verif, "zzvrf"), filepath.Join(c.Repo, "zzvrf")); err != nil {
 		return nil, err
 	}
+	if err := add(filepath.Join(c.Verif, "zzvrf", "wire"), filepath.Join(c.Repo, "zzvrf", "wire")); err != nil {
+		return nil, err
+	}
 	if err := add(c.harnessDir(), filepath.Join(c.Repo, "zzvrf", "h_"+strings.ToLower(c.Prop))); err != nil {
 		return nil, err
 	}
@@ -225,7 +228,7 @@ func initAllow(path string) bool {
 	switch path {
 	case "cosmossdk.io/store/types", "cosmossdk.io/store/prefix", "cosmossdk.io/errors",
 		"github.com/cosmos/cosmos-sdk/types/errors", "cosmossdk.io/core/store", "context", "io",
-		"github.com/cosmos/cosmos-sdk/types/kv", "github.com/cosmos/cosmos-sdk/runtime":
+		"github.com/cosmos/cosmos-sdk/types/kv":
 		return true
 	}
 	return false
@@ -928,9 +931,6 @@ func compareWitness(w symx.Witness, out string) (bool, string) {
 		if nv, ok := obs[k]; !ok || nv != v {
 			return false, fmt.Sprintf("observation %s: engine %s, native %q", k, v, nv)
 		}
-	}
-	if strings.Contains(out, "REPRODUCED") {
-		return false, "an assertion failed natively on a witness the engine considered fine: " + lastLines(out, 3)
 	}
 	return true, ""
 }
